@@ -1,0 +1,110 @@
+//go:build verif
+
+// Contracts for package connection, checked by /verif/gvc (comment-only file,
+// compiled only under the build tag "verif").
+package connection
+
+// The address table is only touched under Manager.mu. Every entry is a record filed
+// under its own address, and every record of this manager that is alive - its dial
+// has not failed and its last reference has not been released - is the entry filed
+// under its address.
+// filedIn[x]: the manager whose table holds record x (ghost: set when the record is
+// filed and its dial started, cleared when the last release removes it).
+//@ ghost filedIn gmap[ref]ref
+//@ monitor Manager.mu protects conns invariant MgrInv
+//@ pred Alive(x *connection, m *Manager) := x != nil && filedIn[x] == m && x.err == nil
+//@ pred MgrInv(m *Manager) := m.conns != nil && (forall a string :: has(m.conns, a) ==> m.conns[a] != nil && m.conns[a].id == a)
+//@   && (forall x *connection :: Alive(x, m) ==> has(m.conns, x.id) && m.conns[x.id] == x)
+//@ pred DialersOK(m *Manager) := m.d != nil && (forall k string :: has(m.d, k) ==> m.d[k] != nil)
+
+// A dial function returns a connection or an error (assumed of every registered dialer, as of grpc.DialContext).
+//@ func type Dial (ctx, target, opts)
+//@   ensures res1 == nil ==> res0 != nil
+//@   note dial functions are assumed to return a non-nil connection when they return no error, and not to touch the manager
+
+// closes[cc]: number of Close calls made on client connection cc by this thread.
+//@ ghost closes gmap[ref]int
+// removed: number of table removals performed (remove calls).
+//@ ghost removals int
+
+//@ func newConnection
+//@   props C16 C12
+//@   ensures res0 != nil && fresh(res0) && res0.id == addr && res0.ref == 0 && res0.c == nil && res0.err == nil && res0.ready != nil && fresh(res0.ready) && !closed(res0.ready)
+
+// remove forgets the record filed under addr and closes its connection, once.
+// It must be called with the lock held and for an address that is present (the
+// code dereferences the looked-up record unconditionally).
+//@ func (*Manager).remove
+//@   props C16 C12
+//@   requires m != nil && wheld(m.mu) && m.conns != nil && has(m.conns, addr) && m.conns[addr] != nil
+//@   modifies mapof(m.conns), ghost closes, ghost removals
+//@   effect removals := removals + 1
+//@   ensures [forgotten C16] !has(m.conns, addr)
+//@   ensures [others-kept C16] forall a string :: a != addr ==> (has(m.conns, a) <==> old(has(m.conns, a))) && m.conns[a] == old(m.conns[a])
+//@   ensures [closed-exactly-once C16] old(m.conns[addr].c) != nil ==> closes[old(m.conns[addr].c)] == old(closes[m.conns[addr].c]) + 1
+//@   ensures [nothing-else-closed C16] forall x ref :: x != old(m.conns[addr].c) ==> closes[x] == old(closes[x])
+
+// The release function proper: one reference is given back under the lock; the
+// record is removed (and its connection closed) exactly when none is left.
+//@ func (*connection).done$1
+//@   props C16 C12
+//@   locks m
+//@   requires m != nil && (c != nil ==> Alive(c, m))
+//@   modifies c.ref, ghost closes, ghost removals, ghost filedIn
+//@   set at call (*Manager).remove#0: filedIn := upd(filedIn, c, nil)
+//@   assert at call (*Manager).remove#0: [removed-only-at-zero C16] wheld(m.mu) && c.ref <= 0 && arg1 == c.id
+//@   ensures [one-reference-back C16] c != nil ==> c.ref == old(c.ref) - 1
+//@   ensures [removed-iff-last C16] c != nil ==> removals == old(removals) + ite(old(c.ref) <= 1, 1, 0)
+//@   ensures [nil-is-a-noop C16] c == nil ==> removals == old(removals) && closes == old(closes)
+//@   note Alive(c, m) - the record was handed out by this manager and the caller still holds a reference - is what the once-guard and the reference taken in Connection give every holder; it is assumed here (the call goes through sync.Once)
+
+// The function handed to the holder runs the release at most once.
+//@ func (*connection).done$2
+//@   props C16 C12
+//@   assert at call (*sync.Once).Do#0: [once-guarded C16] arg1 == fn
+//@ func (*connection).done
+//@   props C16 C12
+//@   ensures res0 != nil
+
+// dial publishes its outcome before signalling ready: on failure the record is
+// removed from the table and the error stored, both under the lock; on success
+// the connection is stored. The ready channel is closed exactly once, last.
+//@ func (*Manager).dial
+//@   props C16 C12
+//@   locks m
+//@   requires m != nil && c != nil && c.ready != nil && !closed(c.ready) && DialersOK(m)
+//@   requires Alive(c, m) && c.id == addr && c.c == nil
+//@   modifies c.err, c.c, closed(c.ready), ghost closes, ghost removals
+//@   assert at builtin close#0: [outcome-published-before-ready C16] c.err != nil || c.c != nil
+//@   assert at call (*Manager).remove#0: [failed-dial-forgets-the-record C16] wheld(m.mu) && arg1 == addr
+//@   ensures [ready-signalled C16] closed(c.ready)
+//@   ensures [exactly-one-outcome C16] (c.err != nil) != (c.c != nil)
+//@   ensures [failure-removes-the-record C16] c.err != nil ==> removals == old(removals) + 1
+//@   ensures [success-keeps-the-record C16] c.err == nil ==> removals == old(removals)
+
+// Connection: create-or-join under the lock; a dial is started exactly when the
+// address was not in the table; the reference is taken under the same lock hold,
+// before waiting for the outcome; an error result carries a no-op release and is
+// returned only before a reference was taken or for a record whose dial failed.
+//@ ghost refsTaken int
+//@ func (*Manager).Connection
+//@   props C16 C12
+//@   locks m
+//@   requires m != nil && ctx != nil && DialersOK(m)
+//@   modifies ghost refsTaken, ghost filedIn, heap(connection.ref), mapof(m.conns)
+//@   set at go (*Manager).dial#0: filedIn := upd(filedIn, c, m)
+//@   assert at go (*Manager).dial#0: [one-dial-per-new-record C16] wheld(m.mu) && !old(has(m.conns, addr)) && m.conns[addr] == c && fresh(c) && c.ref == 0 && !closed(c.ready)
+//@   set at call (*sync.Mutex).Unlock#0: refsTaken := refsTaken + 1
+//@   assert at call (*sync.Mutex).Unlock#0: [reference-taken-before-waiting C16] has(m.conns, addr) && m.conns[addr] == c && c != nil
+//@     && c.ref == ite(old(has(m.conns, addr)), old(m.conns[addr].ref) + 1, 1)
+//@     && spawns() == old(spawns()) + ite(old(has(m.conns, addr)), 0, 1)
+//@   assert at call (*connection).done#0: [release-only-for-a-live-connection C16] c.err == nil && arg0 == c && arg1 == m
+//@   ensures [no-reference-leaked C16] res2 != nil && refsTaken != old(refsTaken) ==> c.err != nil && res2 == c.err
+//@   ensures [error-has-no-connection C16] res2 != nil ==> res0 == nil
+//@   ensures [success-hands-out-the-shared-connection C16] res2 == nil ==> res0 == c.c && refsTaken == old(refsTaken) + 1
+
+//@ func NewManagerCustom
+//@   props C16 C12
+//@   invariant 0: forall k string :: has($visited, k) ==> d[k] != nil
+//@   ensures res1 == nil ==> res0 != nil && fresh(res0) && res0.conns != nil && len(res0.conns) == 0 && res0.d == d && len(d) > 0 && DialersOK(res0)
+//@   ensures res1 != nil ==> res0 == nil
